@@ -61,6 +61,17 @@ def specIterator (m : Method) (addSelf : Bool) (t : T) : Option (List T) :=
   (specOrder m t.kids).map fun xs =>
     if !addSelf then xs else if m == .post then xs ++ [t] else t :: xs
 
+/-! ### depth (independent characterisation of the levels) -/
+
+mutual
+/-- The subtree's nodes in pre-order, each paired with its depth (`d` for the node itself). -/
+def withDepth (d : Nat) : T → List (T × Nat)
+  | .node i ks => (T.node i ks, d) :: withDepthL (d + 1) ks
+def withDepthL (d : Nat) : List T → List (T × Nat)
+  | [] => []
+  | t :: ts => withDepth d t ++ withDepthL d ts
+end
+
 /-! ### visit -/
 
 mutual
